@@ -4,7 +4,6 @@ real BatchedStoreBlobAccess, harness/execpipe)."""
 import glob
 import json
 import os
-import threading
 from concurrent.futures import ThreadPoolExecutor
 
 from lib import vlib
@@ -46,14 +45,20 @@ def _merge(ctx, shard):
 
 
 def _validate_all(ctx, files, label, timeout):
-    """Validate trace files with TLC, a few JVMs at a time."""
+    """Validate trace files with TLC.  One JVM at a time unless VERIF_PAR
+    says otherwise; stops early once a few violating runs have been saved
+    (on a broken tree almost every chunk fails, no need to list them all)."""
     classify = vlib.classify_for(ctx.prop)
-    par = max(1, min(4, (os.cpu_count() or 2) // 3, len(files)))
+    par = max(1, min(int(os.environ.get("VERIF_PAR", "1") or "1"), len(files)))
     shards = [_Shard(ctx, "%s%03d" % (label, i)) for i in range(len(files))]
+    found = []
 
     def one(i):
+        if len(found) >= 3:
+            return
         vlib.validate_traces(shards[i], files[i], TRACE, TCFG, DEPS, "%s%03d" % (label, i),
-                             classify=classify, timeout=timeout)
+                             classify=classify, timeout=timeout, max_failures=3)
+        found.extend(shards[i].violations)
 
     with ThreadPoolExecutor(max_workers=par) as ex:
         futs = [ex.submit(one, i) for i in range(len(files))]
@@ -70,53 +75,37 @@ def _validate_all(ctx, files, label, timeout):
 
 
 def run(ctx):
-    # 1. design check of the specification (does not depend on /repo): runs
-    #    while the driver is built and run.
-    mc_cfg = "MC_ExecPipeline.cfg" if ctx.quick() else "MC_ExecPipeline_thorough.cfg"
-    mc_shard = _Shard(ctx, "mc")
-    mc_err = []
-
-    def mc():
-        try:
-            vlib.design_check(mc_shard, "ExecPipeline.tla", mc_cfg, [], timeout=1500,
-                              workers=max(2, (os.cpu_count() or 4) // 2))
-        except Exception as e:
-            mc_err.append(e)
-
-    t = threading.Thread(target=mc)
-    t.start()
-    try:
-        # 2. the real pipeline: every fault position of every small scenario
-        binary = vlib.go_build_test(ctx, "execpipe")
-        out = ctx.sub("enum")
-        env = {"VERIF_EP_MAXLEN": 3, "VERIF_EP_DEPTH": 1, "VERIF_EP_SEMS": "1,2", "VERIF_EP_CHUNK": 20000}
-        if not ctx.quick():
-            env = {"VERIF_EP_MAXLEN": 4, "VERIF_EP_DEPTH": 2, "VERIF_EP_DEEPLEN": 3,
-                   "VERIF_EP_SEMS": "1,2", "VERIF_EP_CHUNK": 60000}
-        rc, o = vlib.run_driver(binary, "TestEnumerate", out, ctx.seed, env=env, timeout=1500)
-        if rc != 0:
-            raise vlib.Infra("execpipe enumeration driver failed:\n" + o[-2000:])
-        meta = json.load(open(out + "/meta.json"))
-        # 3. seeded random scenarios with multi-fault scripts and concurrency
-        out2 = ctx.sub("rand")
-        n = 400 if ctx.quick() else 6000
-        rc, o = vlib.run_driver(binary, "TestRandom", out2, ctx.seed,
-                                env={"VERIF_N": n, "VERIF_EP_CHUNK": 60000}, timeout=1500)
-        if rc != 0:
-            raise vlib.Infra("execpipe random driver failed:\n" + o[-2000:])
-    finally:
-        t.join()
-    if mc_err:
-        raise mc_err[0]
-    _merge(ctx, mc_shard)
+    # 1. design check of the specification (does not depend on /repo;
+    #    VERIF_C09_NO_MC=1 skips it, e.g. for mutation runs on a copy).
+    if not os.environ.get("VERIF_C09_NO_MC"):
+        mc_cfg = "MC_ExecPipeline.cfg" if ctx.quick() else "MC_ExecPipeline_thorough.cfg"
+        vlib.design_check(ctx, "ExecPipeline.tla", mc_cfg, [], timeout=3000, workers=2, heap="3g")
+    # 2. the real pipeline: every fault position of every small scenario
+    binary = vlib.go_build_test(ctx, "execpipe")
+    out = ctx.sub("enum")
+    env = {"VERIF_EP_MAXLEN": 3, "VERIF_EP_DEPTH": 1, "VERIF_EP_SEMS": "1,2", "VERIF_EP_CHUNK": 25000}
+    if not ctx.quick():
+        env = {"VERIF_EP_MAXLEN": 4, "VERIF_EP_DEPTH": 2, "VERIF_EP_DEEPLEN": 3,
+               "VERIF_EP_SEMS": "1,2", "VERIF_EP_CHUNK": 60000}
+    rc, o = vlib.run_driver(binary, "TestEnumerate", out, ctx.seed, env=env, timeout=1500)
+    if rc != 0:
+        raise vlib.Infra("execpipe enumeration driver failed:\n" + o[-2000:])
+    meta = json.load(open(out + "/meta.json"))
+    # 3. seeded random scenarios with multi-fault scripts and concurrency
+    out2 = ctx.sub("rand")
+    n = 400 if ctx.quick() else 6000
+    rc, o = vlib.run_driver(binary, "TestRandom", out2, ctx.seed,
+                            env={"VERIF_N": n, "VERIF_EP_CHUNK": 60000}, timeout=1500)
+    if rc != 0:
+        raise vlib.Infra("execpipe random driver failed:\n" + o[-2000:])
 
     files = sorted(glob.glob(out + "/trace_*.ndjson"))
     rfiles = sorted(glob.glob(out2 + "/trace_*.ndjson"))
     if not files or not rfiles:
         raise vlib.Infra("execpipe drivers wrote no trace")
     ctx.cov["samples"] += vlib.sample_lines(files[-1], 8)
-    _validate_all(ctx, rfiles, "rand", 1800)
-    _validate_all(ctx, files, "enum", 1800)
+    _validate_all(ctx, rfiles, "rand", 3000)
+    _validate_all(ctx, files, "enum", 3000)
     ctx.assumptions += [
         "the base executor references a digest only if its Put returned nil and attaches Put errors to the response (as localBuildExecutor does)",
         "the CAS answers FindMissing truthfully and stored blobs do not disappear during one Execute call",
